@@ -182,10 +182,44 @@ def run(prop, tier):
         res = q.get()
         pr.join()
         return res
+    def typed_history():
+        """a fresh process in which TYPED datasets were queried first, with lambda parameters named like the names the
+        untyped lambdas use (e, j, g): nothing of that may be remembered when an untyped stream is queried"""
+        def go():
+            ns = {}
+            src = "class TEvt:\n" + "".join(f"    def {nm}(self, a: int = 4) -> int: ...\n" for nm in ATTR_POOL + ["m"])
+            exec(src, ns)
+
+            class TDS(EventDataset):
+                def __init__(self):
+                    super().__init__(ns["TEvt"])
+
+                async def execute_result_async(self, a, title=None):
+                    return 0
+            for nm in ("g", "e", "j"):
+                for op, body in (("Select", f"{nm}.m()"), ("Where", f"{nm}.m() > 0"), ("SelectMany", f"({nm}.m(),)")):
+                    try:
+                        getattr(TDS(), op)(f"lambda {nm}: {body}")
+                    except Exception:
+                        pass
+            return run_jobs(free_jobs)
+        q = ctx.Queue()
+        pr = ctx.Process(target=lambda: q.put(go()))
+        pr.start()
+        res = q.get()
+        pr.join()
+        return res
+
+    def uses_free(t):
+        return (t["k"] == "name" and t["s"] == "g") or any(uses_free(c) for c in t["a"])
+    free_jobs = [j for j in jobs[:n_main] if j[3] in (0, 1) and uses_free(lams[j[1]])]
+    if plan["keep"] is not None:
+        free_jobs = free_jobs[:4000]
     r1 = forked(hist_jobs)
     r2 = forked(list(reversed(hist_jobs)))
     for v in ("'s'", "1", "1.5", "True", "e.x"):
         r2 = r2 + poisoned(v)
+    r2 = r2 + typed_history()
     main_jobs = jobs[:n_main]
     if len(main_jobs) > 60000:
         # thorough tier: replay in parallel, one forked process per contiguous slice (records are independent)
